@@ -184,6 +184,19 @@ theorem C08_hooks_eq_reach_partial_list (E : Env) (st : St) (regs : List Reg) (c
    fun hne core => listClear_preserves E st regs c items hne hinv core,
    fun xs hne core => listExtend_preserves E st regs c xs items hne hinv core⟩
 
+/-- Slice assignment `l[i:j] = xs` on an observed list, any lengths — in particular a
+same-length assignment that keeps the objects but changes their MULTIPLICITIES
+(`[a, a, b]` ↦ `[a, b, b]`): every object's reference count follows the number of its
+occurrences, so a later `pop` cannot leave a still-present object unhooked. -/
+theorem C08_hooks_eq_reach_partial_slice (E : Env) (st : St) (regs : List Reg) (c : Id) (i j : Nat) (xs items : List Id)
+    (hij : i ≤ j ∧ j ≤ items.length)
+    (hne : (((items.drop i).take (j - i)).isEmpty && xs.isEmpty) = false)
+    (hinv : HooksEqReach st.h st.H regs)
+    (core : ListCore E st regs c items (items.take i ++ xs ++ items.drop j) (.list i ((items.drop i).take (j - i)) xs)) :
+    HooksEqReach (mutate E st (.listSlice c i j xs)).st.h (mutate E st (.listSlice c i j xs)).st.H regs ∧
+    (mutate E st (.listSlice c i j xs)).err = none :=
+  listSlice_preserves E st regs c i j xs items hij hne hinv core
+
 /-- A default materialised after registration (non-container default `d`, read of
 an unset trait) gets hooked by the maintainers — the invariant holds in the new
 heap — and delivers nothing to the user. -/
@@ -405,6 +418,20 @@ example : HooksEqReach (mutate {} lSt (.listDel 100 0)).st.h (mutate {} lSt (.li
 
 example : cnt lSt.H (.trait 1 nValue) (.user f10Key) = 2 ∧
     cnt (mutate {} lSt (.listDel 100 0)).st.H (.trait 1 nValue) (.user f10Key) = 1 := by decide
+
+/-- `a.kids = [b, b, c]`, `kids.items.value`; `kids[0:3] = [b, c, c]`; `del kids[2]`: `c` is still
+in the list, its reference count is 1 and bumping `c.value` calls the handler once. -/
+example :
+    let h0 : Heap := [(0, .inst [fld nKids (.ref 100), fld nTraitAdded .unset]),
+                      (1, .inst [fld nValue (.int 0), fld nTraitAdded .unset]),
+                      (2, .inst [fld nValue (.int 0), fld nTraitAdded .unset]),
+                      (100, .list [1, 1, 2])]
+    let s0 : St := ⟨h0, (addRemove h0 f10Key false true lGraph (some 0) Hooks.empty).H⟩
+    let s1 := (mutate {} s0 (.listSlice 100 0 3 [1, 2, 2])).st
+    let s2 := (mutate {} s1 (.listDel 100 2)).st
+    cnt s1.H (.trait 2 nValue) (.user f10Key) = 2 ∧ cnt s2.H (.trait 2 nValue) (.user f10Key) = 1 ∧
+    (mutate {} s2 (.setField 2 nValue (.int 1) 0)).delivered = [.trait f10Key 2 nValue (.int 0) (.int 1)] := by
+  decide
 
 /-- an all-quiet graph exists and `QuietInv` holds of the empty hooks -/
 example : (Graph.node (.named nChild false false) [.node (.named nValue false false) []]).quiet = true ∧
